@@ -2,11 +2,13 @@ SPECIFICATION Spec
 CONSTANTS
   MaxImports = 1
   FewMax = 2
-  UseLayouts = {"plain", "tight", "trail", "oneline", "stray"}
-  Layouts3 = {"plain", "tight", "trail"}
+  UseLayouts = {"plain", "tight", "trail", "oneline", "stray", "local"}
+  Layouts3 = {"plain", "tight", "trail", "local"}
   NExporters = {1, 2}
   ExtMaxFull = 0
   ExtMaxLite = 1
   LiteCmts = {"none", "line"}
   ExtLayouts = {"plain", "trail"}
+  BoundMax = 1
+  BoundLayouts = {"plain"}
 INVARIANTS ReadsBack
